@@ -115,6 +115,38 @@ fn strip(o: &Value) -> String {
 }
 
 
+/// The same query again with every value changed to another value of the same size: the second transaction then
+/// starts by writing exactly where the previous one wrote last (temporal locality of real workloads).
+fn vary_value(v: &agdb::DbValue) -> agdb::DbValue {
+    use agdb::DbValue::*;
+    match v {
+        I64(n) => I64(n ^ 1),
+        U64(n) => U64(n ^ 1),
+        String(s) if !s.is_empty() => {
+            let mut b = s.clone().into_bytes();
+            let last = b.len() - 1;
+            b[last] = if b[last] == b'q' { b'r' } else { b'q' };
+            String(std::string::String::from_utf8(b).unwrap_or_else(|_| s.clone()))
+        }
+        other => other.clone(),
+    }
+}
+fn vary(q: &MQ) -> Option<MQ> {
+    let vv = |values: &agdb::QueryValues| -> agdb::QueryValues {
+        let f = |l: &Vec<agdb::DbKeyValue>| l.iter().map(|kv| agdb::DbKeyValue { key: kv.key.clone(), value: vary_value(&kv.value) }).collect::<Vec<_>>();
+        match values {
+            agdb::QueryValues::Single(l) => agdb::QueryValues::Single(f(l)),
+            agdb::QueryValues::Multi(ls) => agdb::QueryValues::Multi(ls.iter().map(f).collect()),
+        }
+    };
+    match q {
+        MQ::InsertValues(q) => Some(MQ::InsertValues(agdb::InsertValuesQuery { ids: q.ids.clone(), values: vv(&q.values) })),
+        MQ::InsertNodes(q) if matches!(&q.ids, agdb::QueryIds::Ids(v) if !v.is_empty()) =>
+            Some(MQ::InsertNodes(agdb::InsertNodesQuery { count: q.count, values: vv(&q.values), aliases: q.aliases.clone(), ids: q.ids.clone() })),
+        _ => None,
+    }
+}
+
 #[derive(Default)]
 struct Stats { closes: u64, points: u64, torn: u64, before: u64, after: u64, other: u64, unreadable: u64, cross: u64, images: u64 }
 
@@ -231,6 +263,7 @@ pub fn run(args: &Args) {
         let mut obs = match observe(dbo.as_ref().unwrap()) { Ok(o) => merge(o, json!({"digest": "", "others": []})), Err(e) => json!({"ev": "ObserveFailed", "err": e}) };
         trace.emit(obs.clone());
         let mut keys_pool = vec![];
+        let mut planned: std::collections::VecDeque<(MQ, bool)> = std::collections::VecDeque::new();
         let mut step = 0;
         while step < ops {
             step += 1;
@@ -241,7 +274,26 @@ pub fn run(args: &Args) {
             let view = View::from_obs(&obs);
             let before = strip(&obs);
             // the step: a single query or a transaction
-            let is_tx = rng.chance(1, 4);
+            // Planned chains (temporal locality of real workloads): a small value of one element is updated in a query of
+            // its own (the transaction ENDS with the write of that value slot), updated again, and then a longer
+            // transaction STARTS with a third update of the same slot - consecutive transactions that begin exactly
+            // where the previous one ended.
+            if planned.is_empty() && !view.nodes.is_empty() && rng.chance(1, 4) {
+                let id = *rng.pick(&view.nodes);
+                let key = *rng.pick(&["k", "m", "z"]);
+                let q0 = MQ::InsertValues(agdb::InsertValuesQuery {
+                    ids: agdb::QueryIds::Ids(vec![agdb::QueryId::Id(agdb::DbId(id))]),
+                    values: agdb::QueryValues::Single(vec![(key, rng.range(0, 3) as i64).into()]),
+                });
+                let q1 = vary(&q0).unwrap();
+                let q2 = vary(&q1).unwrap();
+                planned.push_back((q0, false));
+                planned.push_back((q1, false));
+                planned.push_back((q2, true));
+            }
+            let plan = planned.pop_front();
+            let varied = plan.as_ref().map(|p| p.0.clone());
+            let is_tx = match &plan { Some(p) => p.1, None => rng.chance(1, 4) };
             let mut qs: Vec<MQ> = vec![];
             {
                 let mut g = Gen { rng: &mut rng, p: &profile, keys_pool: std::mem::take(&mut keys_pool) };
@@ -254,6 +306,7 @@ pub fn run(args: &Args) {
                 keys_pool = g.keys_pool;
             }
             if qs.is_empty() { continue; }
+            if let Some(v) = varied { qs[0] = v; }
             ctx.borrow_mut().snaps.clear();
             ctx.borrow_mut().armed = true;
             let ev = if is_tx {
